@@ -63,6 +63,10 @@ def main(argv=None):
     work.sort(key=lambda w: -w[1].get("cost", 1))
     from concurrent.futures import ProcessPoolExecutor
 
+    import pyvc.api
+    ncores = int(os.environ.get("VERIF_CORES", str(os.cpu_count() or 4)))
+    pyvc.api.SOLVER_SLOTS = mp.get_context("fork").BoundedSemaphore(max(2, ncores - 2))  # inherited by the forked jobs and their pools
+
     # non-daemonic workers: a function job forks its own small pool to discharge its obligations
     with ProcessPoolExecutor(max_workers=min(a.jobs, max(1, len(work))), mp_context=mp.get_context("fork")) as pool:
         results = list(pool.map(_job, work))
